@@ -942,6 +942,11 @@ def _execute(check, case, workdir):
                 h = _open(world, k)
                 try:
                     parts = fmts.result_parts(f['spec']['fmt'], h.read())
+                except Exception as e:
+                    # the plainest history of all -- open, read to the end -- fails on this file
+                    res.violate('%s|%s|sequential_read|raises:%s|fresh' % (check, f['spec']['fmt'], type(e).__name__), -1,
+                                {'message': str(e)[:300], 'file': f['spec']})
+                    return res
                 finally:
                     h.close()
                 bad = _check_frames(f, f['spec']['fmt'], parts, list(range(f['spec']['n_frames'])), None)
